@@ -1072,3 +1072,27 @@ Theorem C02_newton_example :
   /\ eeqb (ex_nu 3) (qe (1 # 4)%Q) = false.
 Proof. exact newton_ex_values. Qed.
 Print Assumptions C02_newton_example.
+
+(** ... and therefore inside every certified enclosure [lo, u] (Real: the one of [fp_check_real]) *)
+Theorem C02_newton_exact_stop_in_enclosure :
+  forall R (o : sr_ops R), sr_ring o -> sr_ordered o -> sr_star o ->
+  forall sub maxr rsd, newton_laws o sub maxr rsd ->
+  forall G, wf_grammar G = true ->
+  forall (w : env (R:=R)) (rd infl : R -> R) (leb eqb : R -> R -> bool) kmax K lo u,
+    (forall x, le o (rd x) x) -> (forall x y, leb x y = true -> le o x y) ->
+    (forall x y, eqb x y = true -> x = y) ->
+    enclosure o rd infl leb G w K = Some (lo, u) ->
+    snd (newton_whole_run o sub maxr G w (close_exact G (nonterminals G) eqb) kmax) = false ->
+    let res := fst (newton_whole_run o sub maxr G w (close_exact G (nonterminals G) eqb) kmax) in
+    env_le_on o G (env_of o lo) res /\ env_le_on o G res (env_of o u).
+Proof. exact (@newton_exact_stop_in_enclosure). Qed.
+Print Assumptions C02_newton_exact_stop_in_enclosure.
+
+Theorem C02_newton_exact_stop_in_enclosure_real :
+  forall G, wf_grammar G = true -> forall w kmax K lo u,
+    enclosure ereal_ops rd_real infl_real eleb G w K = Some (lo, u) ->
+    snd (newton_whole_run ereal_ops esub emax2 G w (close_exact G (nonterminals G) eeqb) kmax) = false ->
+    let res := fst (newton_whole_run ereal_ops esub emax2 G w (close_exact G (nonterminals G) eeqb) kmax) in
+    env_le_on ereal_ops G (env_of ereal_ops lo) res /\ env_le_on ereal_ops G res (env_of ereal_ops u).
+Proof. exact newton_exact_stop_in_enclosure_real. Qed.
+Print Assumptions C02_newton_exact_stop_in_enclosure_real.
